@@ -13,6 +13,7 @@ import time
 
 from . import extract
 from .core import load_crates
+from .reviewed import norm_key
 
 VERIF = extract.VERIF
 KNOWN = os.path.join(VERIF, "known_findings.txt")
@@ -71,6 +72,12 @@ class Ctx:
             self._cache[key] = fn()
         return self._cache[key]
 
+    def inl(self, f, depth=2, max_blocks=250, pred=None, tag=None):
+        """inlined view of f (local non-recursive callees spliced in): anchor-based rules use it so that extracting a
+        helper function out of an anchor does not change what the rule sees"""
+        from .core import inline_fn
+        return self.memo(("inl", f.id, depth, max_blocks, tag), lambda: inline_fn(f.crate, f, depth=depth, max_blocks=max_blocks, pred=pred))
+
     def lock_model(self, crate=None):
         from .locks import LockModel
         crate = crate or self.bin
@@ -96,7 +103,7 @@ def load_known():
                 assert rest.startswith("key="), "known_findings.txt: malformed line: %s" % line
                 rest = rest[4:]
                 key, _, desc = rest.partition(" -- ")
-                known.setdefault(prop, {})[key.strip()] = desc.strip()
+                known.setdefault(prop, {})[norm_key(key.strip())] = desc.strip()
             elif line.startswith("fixed:"):
                 fixed.append(line)
     return known, fixed
@@ -151,6 +158,7 @@ def run_property(prop, tier, repo=None, write_evidence=True, quiet=False, ctx=No
     new_viol = []
     known_hits = []
     for r in results:
+        r.violations = [(norm_key(k), m) for k, m in r.violations]
         for key, msg in r.violations:
             if key in kn:
                 known_hits.append((key, kn[key] or msg))
